@@ -434,7 +434,9 @@ class VTCase(unittest.TestCase):
             thread_action(act)
         self._script(nth)
         # reached only when the script did not raise
-        _do_writes(vt.get('w2'))
+        if vt.get('w2'):
+            emit('t', vt['n'], 'w2')
+            _do_writes(vt['w2'])
 
     def _script(self, nth):
         vt = self._vt
@@ -513,7 +515,9 @@ class VTCase(unittest.TestCase):
                 with self.subTest(i=k):
                     emit('t', vt['n'], 'sub', k, 'p')
                     k += 1
-                    _do_writes(vt.get('wsub'))
+                    if vt.get('wsub'):
+                        emit('t', vt['n'], 'wsub')
+                        _do_writes(vt['wsub'])
             return
         raise AssertionError('unknown script %r' % (s,))
 
